@@ -190,7 +190,7 @@ def run_case(case):
     from bioscrape.inference_setup import InferenceSetup
     C = Counter()
     cells = Counter()
-    viol = []
+    viol = util.ViolList()
     names = ["p0", "p1", "p2", "p3"]
     M = Model(species=["A"], reactions=[([], ["A"], "massaction", {"k": "p0"}), (["A"], [], "massaction", {"k": "p1"}),
                                         (["A"], ["A", "A"], "massaction", {"k": "p2"}), (["A", "A"], ["A"], "massaction", {"k": "p3"})],
